@@ -59,6 +59,14 @@ def members():
             vals = sorted(x for x in pts if lo <= x <= hi)
             ints.append((f"int_{fmt}_{'_'.join(f'{k[:4]}{v}' for k, v in b.items())}", sch, vals))
     out += ints
+    # unsigned formats (the bounds keep the values non-negative, as the type does)
+    for fmt, hi in (("uint32", 2**32 - 1), ("uint64", 2**63 - 1), ("uint8", 255)):
+        for b in ({"exclusiveMinimum": 0, "maximum": 100}, {"minimum": 0, "maximum": 10}, {"minimum": 1}, {"exclusiveMinimum": 0}, {"minimum": 0, "exclusiveMaximum": 7}, {"exclusiveMinimum": 3, "exclusiveMaximum": 5}):
+            sch = dict({"type": "integer", "format": fmt}, **b)
+            pts = {0, 1, hi}
+            for v in b.values():
+                pts |= {v - 1, v, v + 1}
+            out.append((f"int_{fmt}_{'_'.join(f'{k[:4]}{v}' for k, v in b.items())}", sch, sorted(x for x in pts if 0 <= x <= hi)))
     for b in ({"minimum": 0.5, "maximum": 1.5}, {"exclusiveMinimum": 0, "exclusiveMaximum": 1}, {"minimum": -2.25}, {"exclusiveMaximum": 100},
               {"minimum": 1, "exclusiveMinimum": 0}, {"maximum": 10, "exclusiveMaximum": 100}):
         sch = dict({"type": "number"}, **b)
